@@ -192,6 +192,7 @@ Proof.
   destruct (key_of s uri) as [k|]; [|assumption].
   destruct (par (st s) k) as [pr|]; [|assumption].
   pose proof (Inv_set_par s (upd (par (st s)) k None) I) as I1.
+  destruct (before _ _); [exact I1|].
   destruct (negb (Nat.eqb cp (r_client pr))); [exact I1|].
   apply Inv_authorize_core. exact I1.
 Qed.
@@ -204,6 +205,7 @@ Proof.
   destruct (clients s _) as [cl|]; [|assumption].
   destruct (negb (scopes_ok cfg cl (az_scopes a))); [assumption|].
   destruct (negb (aud_ok cfg (cl_aud cl) (az_aud a))); [assumption|].
+  destruct (negb (Nat.eqb _ c)); [assumption|].
   destruct (fresh_rid s) as [rid s1] eqn:E1.
   destruct (fresh_rid_spec _ _ _ E1) as [Hrid [Hs1 [Hst1 [Hnr1 [Hnk1 [Ho1 Hl1]]]]]].
   destruct (mint s1 KPar rid) as [k s2] eqn:E2.
